@@ -527,6 +527,9 @@ func (w *World) randomPropose(o HistOpts) {
 		}
 	}
 	cat := disputetypes.DisputeCategory(1 + w.pick(3))
+	if o.Fanout {
+		cat = disputetypes.Warning // a fee small enough to be paid from the payer's stake
+	}
 	full := sdkmath.NewIntFromUint64(rep.Power).MulRaw(1_000_000)
 	switch cat {
 	case disputetypes.Warning:
